@@ -128,3 +128,39 @@ Example C19_tables_nonempty :
   existsb (fun a => a_write a && role_eqb (a_role a) RHandler) Access.channel = true /\
   existsb (fun a => a_write a && role_eqb (a_role a) RChan) Access.channel = true.
 Proof. vm_compute. repeat split. Qed.
+
+(** C19_no_reentrant_acquisition, on the tables regenerated from the sources (gen/Access.v: lock_acquires,
+    recv_calls, held_calls - all methods of the module that lock a mutex of their receiver): no method
+    calls, while it holds a mutex of its receiver, a method of that receiver that reaches an acquisition
+    of the same mutex. A recursive RLock (the helper that read-locks and calls a read-locking accessor)
+    makes this fail. *)
+Theorem C19_no_reentrant_acquisition : reentrant Access.lock_acquires Access.recv_calls Access.held_calls = [].
+Proof. vm_compute. reflexivity. Qed.
+Print Assumptions C19_no_reentrant_acquisition.
+
+(** what the empty table means: no held call reaches, along any call path on the same receiver, a
+    function that acquires the held lock ... *)
+Theorem C19_no_reentrant_sound : forall holder lock callee n f,
+  In (holder, lock, callee) Access.held_calls -> call_path Access.recv_calls n callee f ->
+  (n <= length Access.recv_calls)%nat -> acquires_lock Access.lock_acquires f lock = false.
+Proof. exact (reentrant_nil_sound _ _ _ C19_no_reentrant_acquisition). Qed.
+Print Assumptions C19_no_reentrant_sound.
+
+(** ... and a thread whose lock operations never re-acquire a held lock is never waiting for a lock it
+    holds itself, however far it has got *)
+Theorem C19_no_self_block : forall pre held l e post,
+  no_reacquire held (pre ++ LAcq l e :: post) -> str_mem l (held_after held pre) = false.
+Proof. exact no_reacquire_next. Qed.
+Print Assumptions C19_no_self_block.
+
+(** why it matters for sync.RWMutex (writer preference): reader 1 holds the lock, writer 2 waits, reader 1
+    asks again - no request can be granted *)
+Theorem C19_recursive_rlock_deadlock :
+  let k := mkRW_ [1%nat] None [2%nat] in
+  grant_read k = false /\ grant_write k = false /\ In 1%nat (rw_readers k).
+Proof. exact recursive_rlock_deadlock. Qed.
+Print Assumptions C19_recursive_rlock_deadlock.
+
+(** non-vacuity: locks are held across calls on the same receiver in the module *)
+Example C19_held_calls_present : negb (lenZ Access.held_calls =? 0) = true /\ negb (lenZ Access.lock_acquires =? 0) = true.
+Proof. vm_compute. split; reflexivity. Qed.
